@@ -88,6 +88,8 @@ class _StdApi:
         self.EXTENDED_ARG = opc.EXTENDED_ARG
         self.HAVE_ARGUMENT = opc.HAVE_ARGUMENT
 
+        std_opc = opc
+
         class Bytecode(_Bytecode):
             """The bytecode operations in a piece of code
 
@@ -99,7 +101,7 @@ class _StdApi:
 
             def __init__(self, x, first_line=None, current_offset=None, opc=None):
                 if opc is None:
-                    opc = _std_api.opc
+                    opc = std_opc
                 _Bytecode.__init__(
                     self,
                     x,
